@@ -4,6 +4,7 @@ import (
 	"encoding/base64"
 	"fmt"
 	"strings"
+	"time"
 
 	"simh/codec"
 	"simh/sim"
@@ -113,6 +114,14 @@ type TunClient struct {
 	Sent   []SentPkt
 	mask   uint32
 
+	// NTLM credentials: when NTLMUser is set every connection first performs the NTLM
+	// exchange (type 1 -> 401 challenge -> type 3 on the same connection)
+	NTLMUser, NTLMPass, NTLMDomain string
+	NTLMScheme                     string // "NTLM" (default) or "Negotiate"
+	ntlmStage                      map[string]int
+	reqFor                         map[string]func(auth string) []byte
+	Challenges                     map[string]*codec.NTLMChallenge
+
 	Ready  bool // transport established (101 / both legacy channels accepted + preamble sent)
 	Failed string
 	// InOrder: for legacy, open IN before OUT (fault order.inout)
@@ -121,22 +130,53 @@ type TunClient struct {
 
 func (w *World) NewTunClient(name, transport, from, connID string) *TunClient {
 	return &TunClient{W: w, Name: name, Transport: transport, From: from, ConnID: connID, GWAddr: w.GW.Addr,
-		head: map[string]*codec.HTTPHead{}, raw: map[string][]byte{}}
+		head: map[string]*codec.HTTPHead{}, raw: map[string][]byte{}, ntlmStage: map[string]int{}, reqFor: map[string]func(string) []byte{}, Challenges: map[string]*codec.NTLMChallenge{}}
 }
 
 func (c *TunClient) ev(kind, conn, text string) {
 	c.Events = append(c.Events, TunEvent{Seq: c.W.S.Seq, Kind: kind, Text: text, Conn: conn})
 }
 
-func (c *TunClient) hdrs() string {
+func (c *TunClient) hdrs(auth string) string {
 	h := "Host: gw.test\r\nRdg-Connection-Id: " + c.ConnID + "\r\nUser-Agent: MS-RDGateway/1.0\r\n"
 	if c.XFF != "" {
 		h += "X-Forwarded-For: " + c.XFF + "\r\n"
 	}
-	if c.AuthHdr != "" {
-		h += "Authorization: " + c.AuthHdr + "\r\n"
+	if auth == "" {
+		auth = c.AuthHdr
+	}
+	if auth != "" {
+		h += "Authorization: " + auth + "\r\n"
 	}
 	return h + c.ExtraHdr
+}
+
+func (c *TunClient) scheme() string {
+	if c.NTLMScheme != "" {
+		return c.NTLMScheme
+	}
+	return "NTLM"
+}
+
+// start sends the first request of a role: with NTLM credentials that is the type-1 leg.
+func (c *TunClient) start(role string, e *sim.End, mk func(auth string) []byte) {
+	c.reqFor[role] = mk
+	if c.NTLMUser != "" {
+		c.ntlmStage[role] = 1
+		e.Send(mk(c.scheme() + " " + base64.StdEncoding.EncodeToString(codec.NTLMNegotiate())))
+		return
+	}
+	e.Send(mk(""))
+}
+
+func (c *TunClient) endFor(role string) *sim.End {
+	switch role {
+	case "ws":
+		return c.WS
+	case "out":
+		return c.Out
+	}
+	return c.In
 }
 
 // OpenWS connects and sends the websocket upgrade request.
@@ -148,8 +188,10 @@ func (c *TunClient) OpenWS() error {
 	c.WS = e
 	c.attach(e, "ws")
 	key := base64.StdEncoding.EncodeToString([]byte(fmt.Sprintf("%-16.16s", c.Name+c.ConnID)))
-	e.Send([]byte("RDG_OUT_DATA /remoteDesktopGateway/ HTTP/1.1\r\n" + c.hdrs() +
-		"Connection: Upgrade\r\nUpgrade: websocket\r\nSec-WebSocket-Version: 13\r\nSec-WebSocket-Key: " + key + "\r\n\r\n"))
+	c.start("ws", e, func(auth string) []byte {
+		return []byte("RDG_OUT_DATA /remoteDesktopGateway/ HTTP/1.1\r\n" + c.hdrs(auth) +
+			"Connection: Upgrade\r\nUpgrade: websocket\r\nSec-WebSocket-Version: 13\r\nSec-WebSocket-Key: " + key + "\r\n\r\n")
+	})
 	return nil
 }
 
@@ -162,7 +204,9 @@ func (c *TunClient) OpenOut() error {
 	c.Out = e
 	c.seedLeft = 10
 	c.attach(e, "out")
-	e.Send([]byte("RDG_OUT_DATA /remoteDesktopGateway/ HTTP/1.1\r\n" + c.hdrs() + "Accept: */*\r\nCache-Control: no-cache\r\n\r\n"))
+	c.start("out", e, func(auth string) []byte {
+		return []byte("RDG_OUT_DATA /remoteDesktopGateway/ HTTP/1.1\r\n" + c.hdrs(auth) + "Accept: */*\r\nCache-Control: no-cache\r\n\r\n")
+	})
 	return nil
 }
 
@@ -177,7 +221,13 @@ func (c *TunClient) OpenIn(fromOverride string) error {
 	}
 	c.In = e
 	c.attach(e, "in")
-	e.Send([]byte("RDG_IN_DATA /remoteDesktopGateway/ HTTP/1.1\r\n" + c.hdrs() + "Accept: */*\r\nCache-Control: no-cache\r\nTransfer-Encoding: chunked\r\n\r\n"))
+	c.start("in", e, func(auth string) []byte {
+		if c.ntlmStage["in"] == 1 {
+			// the type-1 leg carries no body
+			return []byte("RDG_IN_DATA /remoteDesktopGateway/ HTTP/1.1\r\n" + c.hdrs(auth) + "Accept: */*\r\nCache-Control: no-cache\r\nContent-Length: 0\r\n\r\n")
+		}
+		return []byte("RDG_IN_DATA /remoteDesktopGateway/ HTTP/1.1\r\n" + c.hdrs(auth) + "Accept: */*\r\nCache-Control: no-cache\r\nTransfer-Encoding: chunked\r\n\r\n")
+	})
 	return nil
 }
 
@@ -202,6 +252,35 @@ func (c *TunClient) onRecv(role string, b []byte) {
 			return
 		}
 		if h == nil {
+			return
+		}
+		if c.ntlmStage[role] == 1 && h.Status == 401 {
+			// wait for the whole 401 body, then answer the challenge on the same connection
+			cl := 0
+			fmt.Sscanf(h.Header.Get("Content-Length"), "%d", &cl)
+			if len(c.raw[role]) < h.Len+cl {
+				return
+			}
+			var ch *codec.NTLMChallenge
+			for _, v := range h.Header.Values("Www-Authenticate") {
+				if strings.HasPrefix(v, c.scheme()+" ") {
+					if raw, err := base64.StdEncoding.DecodeString(strings.TrimPrefix(v, c.scheme()+" ")); err == nil {
+						ch, _ = codec.ParseNTLMChallenge(raw)
+					}
+				}
+			}
+			c.ev("http", role, "401 challenge")
+			if ch == nil {
+				c.Failed = "no NTLM challenge in the 401 on " + role
+				c.head[role] = h
+				return
+			}
+			c.Challenges[role] = ch
+			c.ntlmStage[role] = 2
+			c.raw[role] = c.raw[role][h.Len+cl:]
+			nt, lm, sbk := codec.NTLMv2Response(c.NTLMUser, c.NTLMPass, c.NTLMDomain, ch.ServerChallenge, []byte("clntchal"), ch.TargetInfo, time.Now())
+			t3 := codec.NTLMAuthenticate(c.NTLMUser, c.NTLMDomain, "WS1", nt, lm, sbk)
+			c.endFor(role).Send(c.reqFor[role](c.scheme() + " " + base64.StdEncoding.EncodeToString(t3)))
 			return
 		}
 		c.head[role] = h
